@@ -216,9 +216,17 @@ def parse_M(out):
     return pairs
 
 
+CUR_TIER = "quick"
+
+
 def eval_shard(path):
     t = time.time()
-    rc, out = sh(["coqc", "-R", os.path.join(COQ, "theories"), "VF", path], cwd=os.path.dirname(path), timeout=1800)
+    # a shard takes seconds on a tree where the property holds; on a broken tree the model may be evaluated on shapes far
+    # outside its normal domain (a degenerate search structure, say): bound it (memory too: 12 GB of address space) so
+    # that it ends as an evaluation error (= broken correspondence) instead of occupying the machine
+    lim = 1800 if CUR_TIER == "thorough" else 600
+    rc, out = sh("ulimit -v 12582912; exec coqc -R %s VF %s" % (os.path.join(COQ, "theories"), path),
+                 cwd=os.path.dirname(path), timeout=lim)
     base = path[:-2]
     for ext in (".vo", ".vok", ".vos", ".glob"):
         try:
@@ -416,6 +424,8 @@ def main(argv):
     if tier == "--replay":
         return replay(pid, argv[3])
     tier = os.environ.get("VERIF_TIER", tier) if tier not in ("quick", "thorough") else tier
+    global CUR_TIER
+    CUR_TIER = tier
     seed = int(os.environ.get("VERIF_SEED", "1") or "1")
     t0 = time.time()
     sys.path.insert(0, os.path.join(VERIF, "lib"))
